@@ -80,9 +80,13 @@ def opParse (args : List String) : String :=
       let o : Opts := { relMatchLenNum := num, relMatchLenDen := den, depth := depth, latent := latS == "1",
                         deadline := if dlS == "-" then none else dlS.toNat? }
       let r := ctparseGen sc ts o (parseCps rest) 200000
+      -- the DFS over the match graph shares the fuel and would stop silently: say so instead (`dfsFinished`, Lemmas/FuelIndep)
+      let txt := stripLabels (preprocess (parseCps rest))
+      let dfsOk := decide ((regexStackIdx txt (matchRegex txt) 200000).2 < 200000)
       let best := match bestOf sc.lt r.cands with | some b => fmtCand b | none => "N"
       ";;".intercalate (r.cands.map fmtCand) ++ " ## " ++ cpsOut r.subject ++ " ## " ++
-        "|".intercalate (r.labels.map cpsOut) ++ " ## " ++ (match r.err with | some e => e.name | none => "-") ++ " ## " ++ best
+        "|".intercalate (r.labels.map cpsOut) ++ " ## " ++
+        (if !dfsOk then PyErr.unmodelled.name else match r.err with | some e => e.name | none => "-") ++ " ## " ++ best
     | _, _, _, _ => "bad-op"
   | _ => "bad-op"
 
